@@ -900,6 +900,11 @@ class SimulationObject(TreeClass, ABC):
                 return True
             if o_start <= s_end <= o_end:
                 return True
+            # other's bounds inside self's: covers an object lying strictly inside this one
+            if s_start <= o_start <= s_end:
+                return True
+            if s_start <= o_end <= s_end:
+                return True
         return False
 
     def __eq__(
